@@ -423,7 +423,7 @@ def local_names(fn: ast.FunctionDef) -> list[str]:
     seen = {}
     for n in _walk_fn(fn):
         if isinstance(n, ast.Name) and isinstance(n.ctx, ast.Store):
-            key = (n.lineno, n.col_offset)
+            key = (getattr(n, "lineno", 10**9), getattr(n, "col_offset", 0))
             if n.id not in seen or key < seen[n.id]:
                 seen[n.id] = key
         elif isinstance(n, ast.ExceptHandler) and n.name:
@@ -1231,6 +1231,42 @@ def _as_expr_body(callee: ast.FunctionDef) -> ast.expr | None:
     return e
 
 
+def _uncomprehend_for_helpers(fn: ast.FunctionDef, inl: "_Inliner") -> None:
+    """`xs = [E for v in I if C]` whose element calls a multi-statement helper (which can only be inlined at statement level) is
+    written back as the loop `xs = []; for v in I: if C: xs.append(E)`"""
+    for parent in [fn, *_walk_fn(fn)]:
+        for fld in ("body", "orelse", "finalbody"):
+            blk = getattr(parent, fld, None)
+            if not (isinstance(blk, list) and blk and isinstance(blk[0], ast.stmt)):
+                continue
+            i = 0
+            while i < len(blk):
+                st = blk[i]
+                i += 1
+                if not (isinstance(st, (ast.Assign, ast.AnnAssign)) and isinstance(getattr(st, "value", None), ast.ListComp)):
+                    continue
+                tg = st.targets if isinstance(st, ast.Assign) else [st.target]
+                comp = st.value
+                if not (len(tg) == 1 and isinstance(tg[0], ast.Name) and len(comp.generators) == 1 and not comp.generators[0].is_async):
+                    continue
+                if not any(isinstance(c_, ast.Call) and inl._callee(c_) is not None and _as_expr_body(inl._callee(c_)[0]) is None for c_ in ast.walk(comp.elt)):
+                    continue
+                g = comp.generators[0]
+                acc = tg[0].id
+                app = ast.Expr(value=ast.Call(func=ast.Attribute(value=ast.Name(id=acc, ctx=ast.Load()), attr="append", ctx=ast.Load()), args=[comp.elt], keywords=[]))
+                body: list[ast.stmt] = [app]
+                if g.ifs:
+                    test = g.ifs[0] if len(g.ifs) == 1 else ast.BoolOp(op=ast.And(), values=list(g.ifs))
+                    body = [ast.If(test=test, body=[app], orelse=[])]
+                loop = ast.For(target=g.target, iter=g.iter, body=body, orelse=[])
+                init = ast.Assign(targets=[ast.Name(id=acc, ctx=ast.Store())], value=ast.List(elts=[], ctx=ast.Load()))
+                for n_ in (init, loop):
+                    ast.copy_location(n_, st)
+                    ast.fix_missing_locations(n_)
+                blk[i - 1:i] = [init, loop]
+                i += 1
+
+
 class _Inliner:
     def __init__(self, helpers: dict[str, tuple[ast.FunctionDef, bool]], log: list[str]) -> None:
         # key: call spelling ("name", "self.name", "cls.name", "Class.name") -> (FunctionDef, skip_first_param)
@@ -1351,15 +1387,46 @@ class _Inliner:
             tg = st.targets if isinstance(st, ast.Assign) else [st.target]
             if len(tg) == 1:
                 call, kind = st.value, "assign"
-        if call is None:
+        if call is None or self._callee(call) is None or _as_expr_body(self._callee(call)[0]) is not None:
+            # a multi-statement helper called *inside* the statement's expression (e.g. `xs.append(helper(a))`): hoist the call into
+            # its own assignment when everything evaluated before it is pure, then inline that assignment
+            heads = _head_exprs(st) if isinstance(st, (ast.Expr, ast.Assign, ast.AnnAssign, ast.Return)) else None
+            if heads:
+                order: list = []
+                for h in heads:
+                    if h is not None:
+                        _eval_order(h, True, order)
+                for k, (x, once) in enumerate(order):
+                    if isinstance(x, ast.Call) and x is not call and self._callee(x) is not None and _as_expr_body(self._callee(x)[0]) is None and once:
+                        before = [y for y, _ in order[:k]]
+                        inside = {id(z) for z in ast.walk(x)}
+                        if any(isinstance(y, ast.Call) and id(y) not in inside and not _is_pure(ast.Call(func=y.func, args=[], keywords=[])) for y in before):
+                            break
+                        if isinstance(st, (ast.Assign, ast.AnnAssign)) and not any(x is z for z in ast.walk(st.value)):
+                            break
+                        self._n_hoist = getattr(self, "_n_hoist", 0) + 1
+                        tmp = f"_hoisted_{self._n_hoist}"
+                        assign = ast.fix_missing_locations(ast.copy_location(ast.Assign(targets=[ast.Name(id=tmp, ctx=ast.Store())], value=x), st))
+
+                        class R(ast.NodeTransformer):
+                            def visit_Call(s_, n_):
+                                if n_ is x:
+                                    return ast.copy_location(ast.Name(id=tmp, ctx=ast.Load()), n_)
+                                return s_.generic_visit(n_)
+                        st2 = R().visit(st)
+                        inl = self._stmt(assign, caller)
+                        if inl is None:
+                            # undo
+                            class B(ast.NodeTransformer):
+                                def visit_Name(s_, n_):
+                                    return x if n_.id == tmp else n_
+                            B().visit(st2)
+                            return None
+                        return [*inl, st2]
             return None
         c = self._callee(call)
-        if c is None:
-            return None
         callee, skip = c
         b = _body_wo_doc(callee)
-        if _as_expr_body(callee) is not None:
-            return None  # handled at expression level
         inst = self._instantiate(callee, call, skip, caller)
         if inst is None:
             return None
@@ -1559,6 +1626,7 @@ def normalize_module(tree: ast.Module, modname: str, log: list[str] | None = Non
         new_ids = {id(f) for _, f, _, _ in new}
         for q, f, c, b in fns:
             if id(f) not in new_ids:
+                _uncomprehend_for_helpers(f, inl)
                 inl.run(f)
         # lambdas in class-level / module-level declarations (field loaders, registries): inline helper calls there too
         def _decl_blocks(body):
